@@ -29,6 +29,25 @@ CLAIMS = {
              ' larger n follow by translation invariance of the interior '
              'rows (stencil width <= 3).  N-d broadcasting through swapaxes '
              'and floating-point rounding are not decided.'),
+    'C20': dict(
+        cat='proof', ref='DESIGN.md section 2, C20',
+        tech='equality/hash key extraction over the resolved class '
+             'hierarchy (attribute sets, comparison modes, type tests through'
+             ' super() chains), path rule for element() fast paths, '
+             'data-dependency rule for derived-space constructors',
+        text='For each of the 30 classes defining __eq__/__hash__ the key '
+             'of __hash__ is proved to be a function of what __eq__ compares '
+             '(attribute subset, value-vs-representation, broadcasting guard,'
+             ' type component, hashability), __eq__ is proved reflexive, '
+             'space membership is space equality, element() returns members '
+             'unchanged on every path, and every derived-space constructor '
+             'call forwards all identity-defining attributes.  These are '
+             'statements about all instances, which pairwise tests on sampled'
+             ' objects cannot give.',
+        note='Trusted: ' + TB + '. Attribute == is assumed reflexive for the '
+             'attribute types involved (NaN excepted).  Transitivity on '
+             'floating-point data and array-like conversion of arbitrary '
+             'inputs are not decided.'),
 }
 
 NOT_YET = 'check not implemented yet in this commit (DESIGN.md section 6 build order)'
